@@ -401,12 +401,38 @@ func c05FaultOnTree(m *xpath.Machine, src, listing string, ti int, res *core.Cas
 		if t.Debug {
 			res.Ev("faulted_runs_with_debug_trace", 1)
 		}
+		// The Go context the caller hands in is none of the tree's business: whether it is absent, already
+		// done, or cancelled while the failing callback runs, the error the tree reported is what the run carries.
+		var gctx context.Context
+		cancel := func() {}
+		gmode := "live"
+		switch (k + 2*ti + len(src)) % 4 {
+		case 0:
+			gctx = context.Background()
+		case 1:
+			gmode = "nil"
+		case 2:
+			gmode = "cancelled-before-the-run"
+			gctx, cancel = context.WithCancel(context.Background())
+			cancel()
+		case 3:
+			gmode = "cancelled-inside-the-failing-callback"
+			gctx, cancel = context.WithCancel(context.Background())
+			kk, cc := k, cancel
+			t.OnCall = func(i int) {
+				if i == kk {
+					cc()
+				}
+			}
+		}
+		res.Ev("faulted_runs_go_context_"+gmode, 1)
 		var o xpmock.Outcome
-		pan, msg, stack := core.Guard(func() { o = xpmock.Run(m, t) })
+		pan, msg, stack := core.Guard(func() { o = xpmock.RunCtx(gctx, m, t) })
+		cancel()
 		res.Ev("faulted_runs", 1)
 		res.Ev("inputs_evaluated", 1)
 		res.Key(fmt.Sprintf("%s#%d@%d", listing, k, ti))
-		in := jsonStr(map[string]interface{}{"expr": src, "fail_callback": k, "of": n, "tree": c05Trees[ti].name})
+		in := jsonStr(map[string]interface{}{"expr": src, "fail_callback": k, "of": n, "tree": c05Trees[ti].name, "go_context": gmode})
 		if pan || o.Panic != "" {
 			res.Fail("C05/fault/panic/"+core.TopRepoFrame(stack), in, msg+o.Panic)
 			continue
